@@ -181,11 +181,6 @@ func c14Specs(tier string) []*h.SeqSpec {
 				copyTree(w.Dir, cp)
 				rc := h.BaseConfig()
 				rc.Storage.StoreType = config.StoreDir
-				if cf.layout.Name == "legacy-stale" {
-					// the writable directory store dead-locks on this layout (known finding of C17/C12): the
-					// memory store over the copy converts it in memory and serves as the reference here
-					rc.Storage.StoreType = config.StoreMem
-				}
 				rc.Storage.RootDir = cp
 				ref := &h.World{Conf: w.Conf, S: olareg.New(rc), Slots: map[string]string{}, Aux: map[string]string{}}
 				vrt.Quiesce()
